@@ -256,4 +256,10 @@ class FunctionVC:
             out['state'] = decode(self.state_ref, self.heap0, model)
         out['args'] = {k: decode(v, self.heap0, model) for k, v in self.sym_args.items()}
         out['warnings_are_errors'] = decode(self.I.warn_flag, self.heap0, model)
+        # values the solver chose for callees replaced by a pure contract (replay stubs them with these)
+        oracle = {}
+        for qual, sym in getattr(self.I, 'cut_log', []):
+            oracle.setdefault(qual, []).append(decode(sym, self.heap0, model))
+        out['pure_callee_results'] = oracle
+        out['havoc_callees'] = sorted(q for q, c in (self.I.cuts or {}).items() if getattr(c, '_havoc', False))
         return out
